@@ -98,6 +98,91 @@ CLAIMED = {
                 'whole-core/GPU requests without tags only.',
  },
 
+ 'C06': {
+  'engine'    : 'bfs',
+  'category'  : 'model_checking',
+  'design_ref': 'DESIGN.md 4 (C06), A.3',
+  'technique' : 'explicit-state search (BFS to closure) over the real '
+                'notification handlers, every transition compared with a '
+                'reference automaton',
+  'text'      : 'State = (Task.state of two real Task objects on a bare '
+                'TaskManager); transition = one state-pubsub message with a '
+                'batch of 1..2 (thorough: 3) notifications over {t1, t2, '
+                'unknown} x 7 states, executed by the real _state_sub_cb -> '
+                '_update_tasks -> Task._update -> _task_cb.  The graph is '
+                'finite and is closed completely.  On every transition the '
+                'callback sequence and resulting Task.state of each task must '
+                'equal the per-task monotone reference automaton applied '
+                'independently of the rest of the batch (batch isolation), '
+                'manager-level and task-level callbacks must agree.',
+  'note'      : 'Reference automaton A.3 is trusted; two tasks; bulk-callback '
+                'mode is not explored.',
+ },
+
+ 'C13': {
+  'engine'    : 'enum',
+  'category'  : 'exploration',
+  'design_ref': 'DESIGN.md 4 (C13)',
+  'technique' : 'exhaustive enumeration of all (binding x state) '
+                'configurations and pilot ending orders on the real callback '
+                '(bounded model checking of a sequential handler)',
+  'text'      : 'Complete product of (pilot in {p1,p2,none}) x (7 task '
+                'states) for three real tasks (thorough: 21^3, quick: 21^2 x 5) '
+                'established through the real _update_tasks, x 16 pilot ending '
+                'sequences through the real _pilot_state_cb: own non-final '
+                'tasks become FAILED naming the pilot, every other task keeps '
+                'state/exception, and exactly the changed tasks are published.',
+  'note'      : 'Pilots are real Pilot facades whose state is set by the '
+                'harness.',
+ },
+
+ 'C14': {
+  'engine'    : 'bfs',
+  'category'  : 'model_checking',
+  'design_ref': 'DESIGN.md 4 (C14), A.4',
+  'technique' : 'explicit-state search (BFS to closure) over the real pilot '
+                'notification handlers; exhaustive enumeration of agent '
+                'termination cause sequences',
+  'text'      : '(a) state = Pilot.state of a real Pilot on a bare '
+                'PilotManager, transitions = batches of 1..2 (3) notifications '
+                'over {p1, unknown} x 8 states through the real _state_sub_cb '
+                '-> _update_pilot -> Pilot._update; graph closed completely; '
+                'safety oracle: announcements never go backward, gaps filled, '
+                'final never left, Pilot.state equals the last announcement, '
+                'unknown pilots have no effect; same sequences through the '
+                'tmgr scheduler view.  (b) all sequences of <= 3 events '
+                '{lifetime check early/late, cancel this/other pilot, '
+                'terminate} on a bare Agent_0 followed by the real finalize(): '
+                'killme.signal and the published state name the first cause; '
+                'the last stanza of bootstrap_0.sh is executed by bash on the '
+                'file.',
+  'note'      : 'A.4 is deliberately weaker than the task automaton (repeats '
+                'allowed); the 1900-line bootstrapper is not executed beyond '
+                'its last stanza.',
+ },
+
+ 'C15': {
+  'engine'    : 'envdfs',
+  'category'  : 'model_checking',
+  'design_ref': 'DESIGN.md 4 (C15), A.7',
+  'technique' : 'stateless exhaustive exploration of environment choices at '
+                'every poll of the real wait loops under a virtual clock',
+  'text'      : 'The real Task.wait, Pilot.wait, TaskManager.wait_tasks and '
+                'PilotManager.wait_pilots run on bare managers; time.time/'
+                'sleep are a virtual clock and every sleep is a choice point '
+                '(advance entity k, up to two steps per poll, or let time '
+                'pass).  All choice sequences are enumerated for every '
+                '(requested states x trajectories x timeout) scenario.  '
+                'Oracle: returns within 0.2 s of min(first satisfaction, '
+                'timeout), is reported as never returning if still polling '
+                '0.5 s later, never returns early, and returns the actual '
+                'states.',
+  'note'      : 'Entity states are set by the harness along prefix-closed '
+                'trajectories of a reduced state chain; "reached" follows the '
+                'linear state model (a later state implies the earlier was '
+                'reached), as wait_tasks documents.',
+ },
+
  'C19': {
   'engine'    : 'enum',
   'category'  : 'exploration',
